@@ -93,6 +93,7 @@ fn main() {
         "C19" => dispatch::<props::c19::C19>(&cli),
         "C18" => dispatch::<props::c18::C18>(&cli),
         "C11" => dispatch::<props::c11::C11>(&cli),
+        "C12" => dispatch::<props::c12::C12>(&cli),
         "C13" => dispatch::<props::c13::C13>(&cli),
         "C14" => dispatch::<props::c14::C14>(&cli),
         "C15" => dispatch::<props::c15::C15>(&cli),
